@@ -72,6 +72,12 @@ def run(ctx):
         extra = ["--parsable"] if name == "slurm" else ["-terse"] if name == "sge" else []
         r1.check(all(e in argv for e in extra), con + "::machine-readable", f"{extra or 'regex on bsub output'}",
                  f"`{exes[name]}` is not asked for machine-readable output ({extra}): the id cannot be parsed", fn.where)
+    from .evalhelpers import cached_witness, report_witness
+    from .schedmodel import cluster_witness
+    report_witness(r1, "src/gwf/backends::<X>Ops.submit_target::scheduler-model", "src/gwf/backends/slurm.py:1", cached_witness(ctx, "cluster", cluster_witness),
+                   "against a model of sbatch/qsub/bsub (a repeated option replaces the earlier one): 8 submissions on one Ops object with 0, 1, 3, 1025 and 2050 "
+                   "prerequisites each hold on exactly the ids given; a refused submission is not repeated with fewer prerequisites",
+                   select=lambda d: d.startswith(("[submit]", "[refuse]")) and "no job id" not in d)
 
     r2 = ctx.rule("R2", "gwf translates every prerequisite target to the id tracked under its name and hands the list to the backend", min_instances=2)
     rule_id_lookup(ctx, r2)
